@@ -172,6 +172,80 @@ def CdcSt.next {σ : Type} (A : Cdc σ) : Nat → CdcSt → CdcSt × Option Byte
 def cdcChunks {σ : Type} (A : Cdc σ) (rd : Rd) : List Bytes :=
   (drain (fun s => CdcSt.next A (s.r.data.length + 2) s) (rd.data.length + 1) { r := rd }).1
 
+/-! ## rabin: `whyrusleeping/chunker.(*Chunker).Next` transcribed
+
+Fields: `rd, closed, chunkbuf, buf[bpos:bmax]` (`buf`), `count, pos, pre, MinSize, MaxSize`; the rolling
+fingerprint (`window, wpos, digest, tables`) is the parameter: `init pos` = the state after `reset()` when hashing
+starts at absolute offset `pos`, `upd` = one `slide`, `isB` = `digest & sizeMask == 0`.  (`start`, `h`/`Digest`
+and the `Chunk` metadata are not observable through boxo's `Rabin.NextBytes` and are left out.) -/
+
+structure Rab (σ : Type) where
+  min : Nat                -- MinSize
+  max : Nat                -- MaxSize
+  blk : Nat                -- chunkerBufSize
+  win : Nat                -- windowSize
+  init : Nat → σ
+  upd : σ → UInt8 → σ
+  isB : σ → Bool
+
+/-- `c.pre = c.MinSize - windowSize` in uint64 arithmetic -/
+def Rab.pre0 {σ : Type} (A : Rab σ) : Nat := (A.min + 2 ^ 64 - A.win) % 2 ^ 64
+
+structure RabSt (σ : Type) where
+  r : Rd
+  closed : Bool := false
+  chunkbuf : Bytes := []
+  buf : Bytes := []         -- c.buf[c.bpos:c.bmax]
+  count : Nat := 0
+  pos : Nat := 0
+  pre : Nat
+  dig : Option σ := none    -- `none` = window/digest as left by reset()
+
+/-- the `for _, b := range c.buf[c.bpos:c.bmax]` loop: `inl (add, rest)` = cut after `add` bytes, `rest` unscanned;
+`inr s` = no cut in this block, fingerprint state `s` -/
+def rabScan {σ : Type} (A : Rab σ) : σ → Nat → Bytes → (Nat × Bytes) ⊕ σ
+  | s, _, [] => .inr s
+  | s, add, b :: rest =>
+    let s' := A.upd s b
+    if add + 1 < A.min then rabScan A s' (add + 1) rest
+    else if A.isB s' ∨ add + 1 ≥ A.max then .inl (add + 1, rest)
+    else rabScan A s' (add + 1) rest
+
+/-- `Next()`; `none` = an error is returned (io.EOF here). One unit of fuel per iteration of the outer `for`. -/
+def RabSt.next {σ : Type} (A : Rab σ) : Nat → RabSt σ → RabSt σ × Option Bytes
+  | 0, s => (s, none)
+  | fuel + 1, s =>
+    if s.closed then (s, none)
+    else if s.buf.isEmpty then
+      -- `if c.bpos >= c.bmax`: refill
+      let x := s.r.readFull A.blk
+      let cb := s.chunkbuf ++ x.2.1
+      if x.2.1.isEmpty then
+        -- err == io.EOF: close; nextBytes(); return the rest if count > 0, else the error
+        if s.count > 0 then
+          ({ s with r := x.1, closed := true, chunkbuf := cb.drop s.count }, some (cb.take s.count))
+        else ({ s with r := x.1, closed := true, chunkbuf := cb.drop s.count }, none)
+      else RabSt.next A fuel { s with r := x.1, chunkbuf := cb, buf := x.2.1 }
+    else if s.pre > s.buf.length then
+      -- still inside the first MinSize - windowSize bytes: skip the whole block
+      RabSt.next A fuel { s with pre := s.pre - s.buf.length, count := s.count + s.buf.length,
+                                 pos := s.pos + s.buf.length, buf := [] }
+    else
+      let buf := s.buf.drop s.pre
+      let count := s.count + s.pre
+      let pos := s.pos + s.pre
+      match rabScan A (s.dig.getD (A.init pos)) count buf with
+      | .inl (add, rest) =>
+        -- cut: nextBytes() and reset()
+        ({ s with chunkbuf := s.chunkbuf.drop add, buf := rest, count := 0, pos := pos + (add - count),
+                  pre := A.pre0, dig := none }, some (s.chunkbuf.take add))
+      | .inr d =>
+        RabSt.next A fuel { s with pre := 0, count := count + buf.length, pos := pos + buf.length, buf := [],
+                                   dig := some d }
+
+def rabChunks {σ : Type} (A : Rab σ) (rd : Rd) : List Bytes :=
+  (drain (fun s => RabSt.next A (2 * s.r.data.length + 4) s) (rd.data.length + 1) { r := rd, pre := A.pre0 }).1
+
 /-! ## spec strings -/
 
 structure Limits where
@@ -298,12 +372,14 @@ def Spec.hi (P : BuzP) : Spec → Nat
   | .rabin _ _ mx => mx
   | .buzhash => P.max
 
-/-- The chunk list of the splitter `FromString(rd, spec)` returns; the rabin boundary automaton is a parameter. -/
+/-- The chunk list of the splitter `FromString(rd, spec)` returns; the rabin fingerprint automaton is a parameter
+(`blk` = chunkerBufSize, window 16). -/
 def chunksOf {σ : Type} (P : BuzP) (blk : Nat) (init : Nat → σ) (upd : σ → UInt8 → σ) (isB : σ → Bool)
     (spec : Spec) (rd : Rd) : List Bytes :=
   match spec with
   | .size n => sizeChunks rd n
   | .buzhash => buzChunks P rd
-  | .rabin mn _ mx => cdcChunks { min := mn, max := mx, blk := blk, init := init, upd := upd, isB := isB } rd
+  | .rabin mn _ mx =>
+    rabChunks { min := mn, max := mx, blk := blk, win := 16, init := init, upd := upd, isB := isB } rd
 
 end C06
